@@ -17,7 +17,7 @@ RULE = (
     "case = workflow (confluent family + failing / cancel / random DAGs) run with the event store in the same database "
     "file, (i) crash-free under FIFO / shuffled delivery and (ii) with a failure injected at the n-th statement that "
     "follows an event INSERT inside a store transaction (RuntimeError = crash/rollback, ConcurrencyError = optimistic "
-    "lock conflict), n enumerated over every such position of the run. Because one commit group of the trigger audit "
+    "lock conflict) or at that event INSERT itself (store error on the append), n enumerated over every such position of the run. Because one commit group of the trigger audit "
     "log is exactly what becomes durable together, 'event durable iff state change durable at every crash point' is "
     "decided by co-membership: every TASK_/STAGE_ COMPLETED/FAILED event shares its commit group with the status row of "
     "that entity, and every completion row committed by CompleteTask / CompleteStage shares it with its event. A SYNC "
@@ -85,9 +85,11 @@ def atomicity_oracle(run, injected: str = "", exempt_msg=None) -> tuple[list[dic
             elif est and match[0]["d"] != est:
                 out.append(viol(f"C13/event-status-mismatch:{e['b']}", f"event says {est}, row written {match[0]['d']}"))
         if handler in ("CompleteTask", "CompleteStage"):
-            if exempt_msg is not None and tag == exempt_msg:
+            if exempt_msg is not None and tag == exempt_msg and all(s_["d"] == "TERMINAL" for s_ in status if s_["op"] in ("task", "stage") and s_["c"] == "RUNNING"):
                 # the handler's documented catch-all error path (after our injected non-transient
-                # exception) marks the stage TERMINAL without an event: not "the regular step"
+                # exception) marks the stage TERMINAL without an event: not "the regular step".
+                # Only TERMINAL writes qualify: a completion with any other outcome committed by the
+                # invocation in which the failpoint fired is the regular step and needs its event.
                 obs["error_path_commits_exempted"] += 1
                 continue
             for s in status:
@@ -161,6 +163,20 @@ class _Failpoint:
                 raise RuntimeError("injected failure after event append")
             self.count += 1
         if isinstance(sql, str) and "INSERT INTO events" in sql and conn.in_transaction:
+            if self.exc == "at_insert":
+                # the event append itself fails (store error on that very statement)
+                if self.count == self.n:
+                    self.fired = True
+                    import sqlite3
+                    import threading
+
+                    from .. import vtask
+
+                    w = vtask._current
+                    self.fired_in = w.current.get(threading.current_thread().name) if w is not None else None
+                    raise sqlite3.OperationalError("database is locked")
+                self.count += 1
+                return
             self.armed = True
 
 
@@ -217,9 +233,9 @@ def run_case(case: dict) -> dict:
                     sample = {"spec": spec["name"], "commit_group": [(a["kind"], a["op"], a["b"] if a["kind"] == "event" else a["c"], a["d"]) for a in run.audit if g.of(a["seq"]) == gi and a["kind"] in ("event", "status", "mark", "queue")], "committed_by": str(g.tag(gi))}
     else:
         base = delivery_run(spec, events=True)
-        positions = sum(1 for a in base.audit if a["kind"] == "event" and a["b"] in COMPLETION_EVENTS)
+        positions = sum(1 for a in base.audit if a["kind"] == "event")  # every event appended inside a store transaction
         for n in range(positions):
-            for exc in ("runtime", "concurrency", "transient"):
+            for exc in ("runtime", "concurrency", "transient", "at_insert"):
                 fp = _Failpoint(n, exc)
                 hooks.H.stmt_hook = fp
                 try:
@@ -229,7 +245,7 @@ def run_case(case: dict) -> dict:
                 obs["evaluations"] += 1
                 if fp.fired:
                     obs["injected_failures"] += 1
-                v, o, k = atomicity_oracle(run, injected=exc if fp.fired else "", exempt_msg=tuple(fp.fired_in) if (fp.fired_in and exc == "runtime") else None)
+                v, o, k = atomicity_oracle(run, injected=exc if fp.fired else "", exempt_msg=tuple(fp.fired_in) if (fp.fired_in and exc in ("runtime", "at_insert")) else None)
                 obs.update(o)
                 keys |= k
                 for x in v:
